@@ -59,12 +59,46 @@ def exact_program(p0, p):
 
 
 def judge(case):
-    import blackbird
-    from .. import realrun
     st, d = loadcheck.judge_load(case)
     if st != "ok" or case["out"]["k"] != "ok" or not case.get("inscope"):
         return st, d
+    return chain(case, d)
+
+
+def judge_random(case):
+    """a random script whose program the TLC oracle computed: only the dumps/loads generations are judged here"""
+    from .. import values
+    values.EXTRA_ATOMS = dict(enumerate(case["atoms"]))
+    try:
+        return chain(case, {"text": case["text"]})
+    finally:
+        values.EXTRA_ATOMS = {}
+
+
+def all_finite(x):
+    import numpy as np
+    if isinstance(x, dict):
+        return all(all_finite(v) for v in x.values())
+    if isinstance(x, (list, tuple)):
+        return all(all_finite(v) for v in x)
+    if isinstance(x, np.ndarray):
+        return x.dtype == object or bool(np.all(np.isfinite(x)))
+    if isinstance(x, (int, float, complex, np.number)) and not isinstance(x, bool):
+        return bool(np.isfinite(x))
+    import sympy as sym
+    e = getattr(x, "expr", x)
+    if isinstance(e, sym.Expr):
+        return not e.has(sym.oo, sym.zoo, sym.nan, -sym.oo)
+    return True
+
+
+def chain(case, d):
+    import blackbird
+    from .. import realrun
+    st = "ok"
     p0 = realrun.loads(d["text"])[1]
+    if not (all_finite(p0.operations) and all_finite(p0.target) and all_finite(p0.programtype) and all_finite(p0.variables)):
+        return "unspec", d           # the property is quantified over scripts whose values are finite
     p = p0
     texts = []
     stationary = None
@@ -104,6 +138,21 @@ def run(rep, tier, seed, module="MC_C01", pid="C01"):
     for c in cases:
         c["gens"] = GENS[tier]
     res = loadcheck.replay_cases(rep, cases, seed, sections=("meta", "ops", "modes", "params"), fingerprint=fingerprint, judge=judge, strict_cls=False)
+    if pid == "C01":
+        from .. import randcases, realrun
+        n = 300 if tier == "quick" else 3000
+        rc = randcases.build(seed + 11, n)
+        randcases.judge(rep, rc, "Trace_Load (oracle for %d random scripts whose round trip is then executed)" % n)
+        rc = [dict(c, gens=GENS[tier], events=None, real=None) for c in rc if c["out"]["k"] == "ok" and c["inscope"]]
+        rres = realrun.pmap(judge_random, rc, chunk=20)
+        for c, (st_, d_) in zip(rc, rres):
+            if st_ == "bad":
+                rep.violation("random script: %s | script:\n%s" % (d_["reason"], c["text"]), {"text": c["text"], "reason": d_["reason"], "fingerprint": None})
+        rep.cov["random_scripts_round_tripped"] = len(rc)
+        rep.cov["traces_validated_against_impl"] += len(rc)
+        rep.cov["evaluations"] += len(rc)
+        rep.cov["distinct_nontrivial"] += len(rc)
+        res = res + rres
     stat = [d.get("stationary_at") for st, d in res if st == "ok" and "stationary_at" in d]
     rep.cov["generations"] = GENS[tier]
     rep.cov["in_scope_programs"] = sum(1 for c in cases if c.get("inscope"))
